@@ -874,5 +874,7 @@ def run(chk):
 
     from verif import fallthrough
     fallthrough.run(chk, "C18", floor=5)
+    from verif import argorder
+    argorder.run(chk, "C18", floor=11)
 
     chk.assumptions += ["documented ACTIONX condition syntax (AND binds tighter than OR; .GT. style aliases) as frozen in rules/C18.py"]
